@@ -1,5 +1,6 @@
 """C03 - gang integrity: no decision leaves a pod group partially running."""
 import st_cluster
+import st_fixtures
 
 LEVEL = "model_checking"
 PREFIXES = ["C03_"]
@@ -11,3 +12,4 @@ def run(ctx):
     ctx.assumptions += ["one pod set per job in the generated scenarios (hierarchical sub-groups are covered by the repository fixtures stage when present)"]
     n = 300 if ctx.quick else 8000
     st_cluster.run_stage(ctx, PREFIXES, [("mixed", n // 3), ("full", n // 6), ("closed", n // 8), ("fraction", n // 8), ("elastic", n // 4)])
+    st_fixtures.run_stage(ctx, PREFIXES)
